@@ -45,6 +45,30 @@ MustNotMention(lvl) ==
          : it \in {x \in LeavesOf(lvl) : Hidden(x)}}
   \cup UNION {AliasNames(it) : it \in {x \in LeavesOf(lvl) : ~Hidden(x)}}
   \cup UNION {RangeOf(Tail(c.names)) : c \in LevelCmds(lvl)}
+\* ---- sections: under which heading an item is listed.  An item under a header of its own (`group_help` on the item
+\* or on the field - choice, group - it belongs to, or the header a level gives its commands together with the option
+\* declared before them) is listed under that header; every other option under "Available options", positional under
+\* "Available positional items", command under "Available commands".  A heading is identified by one token.
+GHead(x) == IF "gh_words" \in DOMAIN x THEN x.gh_words[1] ELSE x.group_help
+HasGH(x) == "group_help" \in DOMAIN x /\ x.group_help # ""
+CmdGroup(lvl) == lvl.tail.kind = "cmd" /\ "grouped" \in DOMAIN lvl.tail /\ lvl.tail.grouped # "" /\ lvl.named # <<>>
+\* pairs <<token, heading token>>
+SectionPairs(lvl) ==
+  UNION {LET f == lvl.named[k]
+             \* (the header shared with the commands wins over the field's own)
+             own == IF CmdGroup(lvl) /\ k = Len(lvl.named) THEN lvl.tail.grouped
+                    ELSE IF HasGH(f) THEN GHead(f) ELSE "" IN
+         UNION {{<<n, IF HasGH(it) /\ ~IsLeaf(f) THEN GHead(it) ELSE IF own # "" THEN own
+                       ELSE IF it.kind = "pos" THEN "positional" ELSE "options">> : n \in FirstNames(it) \cup (IF it.kind = "pos" THEN {it.metavar} ELSE {})}
+                : it \in {x \in FieldLeaves(f) : ~Hidden(x)}}
+         : k \in {k \in DOMAIN lvl.named : ~("hidden" \in DOMAIN lvl.named[k] /\ lvl.named[k].hidden)}}
+  \cup (IF lvl.tail.kind = "pos"
+        THEN {<<p.metavar, IF HasGH(p) THEN GHead(p) ELSE "positional">> : p \in {x \in RangeOf(lvl.tail.items) : ~Hidden(x)}}
+        ELSE {})
+  \cup {<<c.names[1], IF CmdGroup(lvl) THEN lvl.tail.grouped ELSE "commands">> : c \in LevelCmds(lvl)}
+\* r.sections : sequence of [head : tokens of the heading line, items : tokens of the item lines below it]
+Misplaced(lvl, r) ==
+  {p \in SectionPairs(lvl) : ~\E i \in DOMAIN r.sections : p[2] \in RangeOf(r.sections[i].head) /\ p[1] \in RangeOf(r.sections[i].items)}
 \* name-like tokens allowed in the item lists
 MayList(lvl) == MustList(lvl) \cup UNION {RangeOf(c.shorts) : c \in LevelCmds(lvl)}
 
@@ -74,6 +98,7 @@ Problems(r) ==
    \* the usage line is exactly the one Usage.tla computes from the definition (a line supplied by the program aside)
    usage     |-> IF r.kind = "help" /\ "usage" \in DOMAIN r /\ "usage_token" \notin DOMAIN lvl /\ r.usage # UsageLineS(lvl, r.path, "")
                  THEN UsageLine(lvl, r.path) ELSE "",
+   misplaced |-> IF r.kind = "help" /\ "sections" \in DOMAIN r THEN Misplaced(lvl, r) ELSE {},
    order     |-> IF r.kind # "help" THEN TRUE
                  ELSE LET o == r.order  Lt(a, b) == a = 0 \/ b = 0 \/ a < b IN
                       /\ Lt(o.descr, o.usage) /\ Lt(o.usage, o.header) /\ Lt(o.header, o.items) /\ Lt(o.items, o.footer)
@@ -81,7 +106,7 @@ Problems(r) ==
 HInit == l = 1 /\ bad = 0 /\ def = DefSeq[1] /\ env = <<>> /\ line = <<>> /\ st = 0
 HNext == /\ l <= Len(Rec)
          /\ LET p == Problems(Rec[l]) IN
-            IF p.missing = {} /\ p.forbidden = {} /\ p.foreign = {} /\ p.order /\ p.usage = "" THEN bad' = bad
+            IF p.missing = {} /\ p.forbidden = {} /\ p.foreign = {} /\ p.order /\ p.usage = "" /\ p.misplaced = {} THEN bad' = bad
             ELSE PrintT(<<"REJECT", l, ToJson(p)>>) /\ bad' = bad + 1
          /\ l' = l + 1 /\ UNCHANGED vars
 AllConsumed == IF TLCGet("stats").diameter - 1 = Len(Rec) THEN TRUE
